@@ -170,7 +170,7 @@ where
             let dfn = self.search_graph.insert(goal, depth, initial_solution);
 
             let subgoal_minimums =
-                self.solve_new_subgoal(goal, depth, dfn, solver_stuff, should_continue);
+                self.solve_new_subgoal(goal, depth, dfn, solver_stuff, should_continue.clone());
 
             self.search_graph[dfn].links = subgoal_minimums;
             self.search_graph[dfn].stack_depth = None;
@@ -185,7 +185,13 @@ where
             // cache now. This is a sort of hack to alleviate the
             // worst of the repeated work that we do during tabling.
             if subgoal_minimums.positive >= dfn {
-                if let Some(cache) = &mut self.cache {
+                if !should_continue() {
+                    // Once `should_continue` has said stop, the answers found
+                    // are provisional (an interrupted iteration is merely
+                    // ambiguous): they must not be made permanent.
+                    debug!("solve_reduced_goal: SCC head encountered, rolling back as solving was interrupted");
+                    self.search_graph.rollback_to(dfn);
+                } else if let Some(cache) = &mut self.cache {
                     self.search_graph.move_to_cache(dfn, cache);
                     debug!("solve_reduced_goal: SCC head encountered, moving to cache");
                 } else {
